@@ -21,6 +21,11 @@ TRUSTED = [
     'exactly symmetric / Hermitian or off by >= 1/8)',
 ]
 ASSUMPTIONS = [
+    'argument types (hardening streams): only what the unmodified tree accepts is generated — numpy in-place casting rules for '
+    '*= and /= (int arrays only with ints, real arrays not with complex scalars), tensor entries read by '
+    'get_fermion_operator must be float64 / complex128 (SymbolicOperator accepts int / float / complex subclasses only), '
+    'Python bool tensor constants are excluded (numpy.add / numpy.subtract on two bools are logical operations), operators '
+    'with no ladder operator (n_qubits = 0) are excluded from the three scatter conversions',
     'tensor entries, rotation matrices and coefficients are dyadic Gaussian rationals (exact float arithmetic) except the '
     '(3+4i)/5 rotation blocks, which are compared at absolute tolerance 1e-9 and counted as float comparisons',
     'each n_body_tensors[key] has shape (n_qubits,)*len(key); keys contain only 0/1',
@@ -1367,7 +1372,8 @@ def stream_rot(ctx):
 # ------------------------------------------------------------------ entry points
 
 def run(ctx):
-    return [stream_arith(ctx), stream_iter(ctx), stream_conv(ctx), stream_maj(ctx), stream_rot(ctx)]
+    return [stream_arith(ctx), stream_iter(ctx), stream_conv(ctx), stream_maj(ctx), stream_rot(ctx),
+            stream_types(ctx), stream_state(ctx), stream_bands(ctx)]
 
 
 def classify(v):
@@ -1387,3 +1393,850 @@ def probe_known(ctx, k):
     r = a - b
     # a - b must denote a†a - a a†: the (0,1) tensor of the result must be -1
     return complex(r.n_body_tensors[(0, 1)][0, 0]) != -1.0
+
+
+# ====================================================================== hardening streams
+# (T) argument types / containers, (S) state and aliasing, (B) bands / sizes, (A) asymmetry
+
+DTYPES = [numpy.int32, numpy.int64, numpy.float32, numpy.float64, numpy.complex64, numpy.complex128]
+ACCEPTED_COEFF_DTYPES = (numpy.dtype('float64'), numpy.dtype('complex128'))   # subclasses of float / complex
+
+
+def typed_values(rng, shape, dtype, zero_p=0.2, imag_only_p=0.15):
+    """random array of the given dtype with exactly representable (dyadic / integer) values"""
+    kind = numpy.dtype(dtype).kind
+    a = numpy.zeros(shape, dtype=complex)
+    for idx in itertools.product(*[range(s) for s in shape]):
+        if rng.random() < zero_p:
+            continue
+        if kind == 'i':
+            a[idx] = rng.randint(-5, 5)
+        elif kind == 'f':
+            a[idx] = rng.randint(-12, 12) / 4
+        else:
+            if rng.random() < imag_only_p:
+                a[idx] = complex(0, rng.randint(-8, 8) / 4)       # purely imaginary entry
+            else:
+                a[idx] = complex(rng.randint(-8, 8) / 4, rng.randint(-8, 8) / 4)
+    return a
+
+
+def cast(a, dtype, rng):
+    kind = numpy.dtype(dtype).kind
+    b = (a.real if kind in 'if' else a).astype(dtype)
+    if rng.random() < 0.3:
+        b = numpy.asfortranarray(b)
+    return b
+
+
+def typed_array(rng, n, order, dtype, zero_p=0.2):
+    return cast(typed_values(rng, (n,) * order, dtype, zero_p), dtype, rng)
+
+
+def typed_scalar(rng, allow_complex=True, allow_bool=True):
+    r = rng.random()
+    v = rng.randint(-6, 6) / 4
+    if r < 0.15:
+        return int(rng.randint(-3, 3))
+    if r < 0.22 and allow_bool:
+        # (numpy.add / numpy.subtract on two Python bools are logical operations: not offered as tensor constants)
+        return bool(rng.randint(0, 1))
+    if r < 0.45:
+        return float(v)
+    if r < 0.6:
+        return numpy.float64(v)
+    if allow_complex and r < 0.8:
+        return complex(v, rng.randint(-6, 6) / 4)
+    if allow_complex and r < 0.9:
+        return numpy.complex128(complex(0, rng.randint(1, 6) / 4))      # purely imaginary
+    return float(v)
+
+
+def arrays_of(obj):
+    """all numpy arrays reachable from a tensor-like object / operator (for aliasing checks)"""
+    out = []
+    if isinstance(obj, numpy.ndarray):
+        out.append(obj)
+    elif hasattr(obj, 'n_body_tensors') and obj.__class__.__name__ != 'DOCIHamiltonian':
+        out += [v for v in obj.n_body_tensors.values() if isinstance(v, numpy.ndarray)]
+    elif hasattr(obj, 'one_body') and hasattr(obj, 'two_body'):
+        out += [obj.one_body, obj.two_body]
+    return out
+
+
+def share(x, y):
+    return any(numpy.shares_memory(a, b) for a in arrays_of(x) for b in arrays_of(y))
+
+
+def snap_any(x):
+    """value snapshot of an argument"""
+    if isinstance(x, numpy.ndarray):
+        return ('arr', str(x.dtype), canon_tensor(enc_tensor(x), x.ndim))
+    if hasattr(x, 'terms'):
+        return ('op', tuple(sorted((str(k), from_gq(to_gq(v))) for k, v in x.terms.items())))
+    if hasattr(x, 'n_body_tensors'):
+        return ('pt', canon_pt(enc_pt(x)))
+    if hasattr(x, 'one_body'):
+        return ('dch', canon_dch(enc_dch(x)))
+    if isinstance(x, (list, tuple)):
+        return tuple(snap_any(y) for y in x)
+    return ('v', repr(x))
+
+
+def mutate_result(rng, r):
+    """in-place modification of every mutable value a call returned"""
+    for a in arrays_of(r):
+        if a.size and a.flags.writeable:
+            try:
+                a += 1
+            except Exception:
+                pass
+    if hasattr(r, 'terms'):
+        for k in list(r.terms):
+            r.terms[k] = r.terms[k] * 3 + 1
+        r.terms[((0, 1),) if r.__class__.__name__ != 'MajoranaOperator' else (0, 1, 2)] = 7.0
+    if hasattr(r, 'n_body_tensors') and r.__class__.__name__ != 'DOCIHamiltonian':
+        try:
+            r.n_body_tensors[()] = 12345.0
+        except Exception:
+            pass
+    if hasattr(r, 'constant') and hasattr(r, 'one_body'):
+        r.constant = 12345.0
+
+
+def twice(st, rng, name, fn, args, case):
+    """(S) call fn twice around an in-place modification of the first result"""
+    s0 = snap_any(args)
+    try:
+        r1 = fn(*args)
+        c1 = snap_any(r1)
+        if snap_any(args) != s0:
+            st.violate('%s modified its arguments' % name, case, {})
+            return None
+        if any(share(r1, a) for a in args):
+            st.violate('%s returns arrays that share memory with its arguments' % name, case, {})
+        mutate_result(rng, r1)
+        if snap_any(args) != s0:
+            st.violate('modifying the result of %s changed its arguments (aliasing)' % name, case, {})
+            return None
+        r2 = fn(*args)
+        if snap_any(r2) != c1:
+            st.violate('%s: a second call after modifying the first result differs from the first result' % name, case,
+                       {'first': show(c1, 600), 'second': show(snap_any(r2), 600)})
+        if r1 is r2 or share(r1, r2):
+            st.violate('%s: results of two calls share state' % name, case, {})
+        st.count('state:' + name)
+        return r2
+    except Exception as e:
+        st.violate('%s: unexpected exception %s: %s' % (name, errname(e), e), case, {})
+        return None
+
+
+def inplace_scalar_ok(pt, c, div):
+    """numpy casting rule for `array *= c` / `array /= c` (same_kind)"""
+    for k, v in pt.n_body_tensors.items():
+        if not isinstance(v, numpy.ndarray):
+            continue
+        kind = v.dtype.kind
+        ck = 'c' if isinstance(c, complex) else 'f' if isinstance(c, float) else 'i'
+        if div and kind == 'i':
+            return False
+        if kind == 'i' and ck != 'i':
+            return False
+        if kind == 'f' and ck == 'c':
+            return False
+    return True
+
+
+def stream_types(ctx):
+    of = ctx.of
+    st = Stream('types-and-containers',
+                '(T)/(A) QuadraticHamiltonian(hermitian_part, antisymmetric_part, constant, chemical_potential) with int32 / '
+                'int64 / float32 / float64 / complex64 / complex128, C- and Fortran-ordered arrays, Python / numpy scalar '
+                'constants and chemical potentials (0, 0.5, -1.75, ints, numpy floats): tensors compared exactly with the Model, '
+                'their Spec denotation with the docstring formula evaluated on the ARGUMENTS, attributes, get_fermion_operator '
+                'where numpy promotion yields float64 / complex128; PolynomialTensor + - unary- scalar ops and '
+                'general_basis_change with mixed dtypes (also purely imaginary entries); conversions with n_qubits / '
+                'chemical_potential / hbar of int, float and numpy scalar type; distinct = distinct inputs')
+    orc = Oracle(ctx)
+    rng = rng_for(ctx.seed, 'c08-types')
+    N = budget(ctx.tier, 160, 1500)
+    if ctx.drift:
+        N = max(N, 600)
+    MUS = [0, 0.0, 0.5, -1.75, 2, 3.0, numpy.float64(0.25), numpy.float32(1.5), -1]
+    items = []
+    reqs = []
+    for i in range(N):
+        n = rng.choice([1, 2, 2, 3])
+        dt = rng.choice(DTYPES)
+        a = typed_values(rng, (n, n), dt, 0.2)
+        M = cast(a + a.conj().T, dt, rng)
+        D = None
+        if rng.random() < 0.5:
+            dt2 = rng.choice(DTYPES)
+            b = typed_values(rng, (n, n), dt2, 0.3)
+            D = cast(b - b.T, dt2, rng)
+        c = typed_scalar(rng)
+        mu = rng.choice(MUS)
+        items.append((n, M, D, c, mu))
+        reqs.append({'op': 'c08.mk_qh', 'n': n, 'M': enc_tensor(M), 'D': None if D is None else enc_tensor(D),
+                     'c': to_gq(c), 'mu': to_gq(mu)})
+    ans = ctx.driver.run(reqs)
+    for (n, M, D, c, mu), m in zip(items, ans):
+        case = {'f': 'QuadraticHamiltonian', 'hermitian_part': enc_tensor(M), 'dtype': str(M.dtype),
+                'fortran': bool(M.flags.f_contiguous and n > 1),
+                'antisymmetric_part': None if D is None else enc_tensor(D), 'anti_dtype': None if D is None else str(D.dtype),
+                'constant': repr(c), 'chemical_potential': repr(mu)}
+        st.case(case)
+        st.count('dtype:' + str(M.dtype))
+        st.count('mu:' + repr(mu))
+        M0, D0 = M.copy(), None if D is None else D.copy()
+        try:
+            if D is None:
+                qh = of.QuadraticHamiltonian(M, constant=c, chemical_potential=mu)
+            else:
+                qh = of.QuadraticHamiltonian(M, D, c, mu)
+            jq = enc_pt(qh)
+        except Exception as e:
+            st.violate('QuadraticHamiltonian.__init__ raised %s: %s' % (errname(e), e), case, {})
+            continue
+        if not numpy.array_equal(M, M0) or (D is not None and not numpy.array_equal(D, D0)):
+            st.violate('QuadraticHamiltonian.__init__ modified its arguments', case, {})
+        if canon_pt(jq) != canon_pt(m):
+            st.disagree('QuadraticHamiltonian.__init__', case, jq, m)
+        # Spec: the tensors denote the docstring formula evaluated on the arguments
+        zero = enc_tensor(numpy.zeros((n, n)))
+        req = {'op': 'c08.spec_qh', 'n': n, 'M': enc_tensor(M0), 'D': zero if D0 is None else enc_tensor(D0),
+               'mu': to_gq(mu), 'c': to_gq(c)}
+
+        def got_spec(den, case=case, n=n, jq=jq):
+            orc.denote_pt(jq, lambda d2: orc.spec_eq(
+                st, 'the tensors of QuadraticHamiltonian(M, Delta, c, mu) do not denote the docstring operator', case, n,
+                leaf(d2), leaf(den)))
+        orc.ask(req, got_spec)
+        # attributes
+        try:
+            ok = (canon_tensor(enc_tensor(qh.hermitian_part), 2) == canon_tensor(enc_tensor(M0), 2)
+                  and canon_tensor(enc_tensor(qh.combined_hermitian_part), 2)
+                  == canon_tensor(enc_tensor(M0 - complex(mu).real * numpy.eye(n)), 2)
+                  and canon_tensor(enc_tensor(qh.antisymmetric_part), 2)
+                  == canon_tensor(enc_tensor(numpy.zeros((n, n)) if D0 is None else D0), 2)
+                  and from_gq(to_gq(qh.chemical_potential)) == from_gq(to_gq(mu))
+                  and from_gq(to_gq(qh.constant)) == from_gq(to_gq(c)))
+            if not ok:
+                st.violate('hermitian_part / combined_hermitian_part / antisymmetric_part / chemical_potential / constant '
+                           'do not return the arguments', case, {'tensors': jq})
+        except Exception as e:
+            st.violate('attribute access raised %s: %s' % (errname(e), e), case, {})
+        # get_fermion_operator where numpy promotion of the docstring expressions gives float64 / complex128
+        exp10 = (M0 - mu * numpy.eye(n)).dtype if mu else M0.dtype
+        exp11 = None if D0 is None else (0.5 * D0).dtype
+        acceptable = exp10 in ACCEPTED_COEFF_DTYPES and (exp11 is None or exp11 in ACCEPTED_COEFF_DTYPES) \
+            and isinstance(c, (int, float, complex))
+        if acceptable:
+            st.count('to_fermion:expected-ok')
+            try:
+                fop = of.get_fermion_operator(qh)
+                jf = enc_op('fermion', fop.terms)
+                orc.ask(req, (lambda case, n, jf: (lambda den: orc.spec_eq(
+                    st, 'get_fermion_operator(QuadraticHamiltonian) does not denote the docstring operator', case, n,
+                    leaf(jf), leaf(den))))(case, n, jf))
+            except Exception as e:
+                st.violate('get_fermion_operator(QuadraticHamiltonian(...)) raised %s: %s' % (errname(e), e), case,
+                           {'tensor_dtypes': {str(k): str(getattr(v, 'dtype', type(v))) for k, v in qh.n_body_tensors.items()}})
+
+    # PolynomialTensor arithmetic with mixed dtypes
+    cases = []
+    for i in range(N):
+        n = rng.choice([1, 2, 2, 3])
+        pool = KEYS_ALL if n <= 2 else [k for k in KEYS_ALL if len(k) <= 2]
+
+        def mk(keys):
+            d = {}
+            for k in keys:
+                d[k] = typed_scalar(rng, allow_bool=False) if k == () else typed_array(rng, n, len(k), rng.choice(DTYPES))
+            return of.PolynomialTensor(d)
+        op = rng.choice(['add', 'sub', 'iadd', 'isub', 'neg', 'mulT', 'addS', 'subS', 'rsubS', 'iaddS', 'mulS', 'rmulS',
+                         'imulS', 'divS', 'idivS'])
+        a = mk(rand_keys(rng, pool))
+        b = c = None
+        if op in ('add', 'sub', 'iadd', 'isub', 'mulT'):
+            b = mk(rand_keys(rng, pool))
+        elif op != 'neg':
+            c = rand_scalar(rng, div=op in ('divS', 'idivS')) if rng.random() < 0.5 else typed_scalar(rng)
+            if op in ('divS', 'idivS') and complex(c) == 0:
+                c = 2
+            if op in ('divS', 'idivS') and not isinstance(c, (int, float, complex)):
+                c = float(c.real) if hasattr(c, 'real') else 2.0
+            if op in ('divS', 'idivS'):
+                c = rng.choice([2, 4, 0.5, -2.0, 0.25, 2j, -0.5j])
+            if isinstance(c, bool) or type(c).__module__ == 'numpy':
+                # COEFFICIENT_TYPES = (int, float, complex): numpy float64 / complex128 qualify, others do not
+                if not isinstance(c, (int, float, complex)):
+                    c = float(c)
+            if op in ('mulS', 'rmulS', 'imulS', 'divS', 'idivS') and not inplace_scalar_ok(a, c, op in ('divS', 'idivS')):
+                op = 'addS'
+        cases.append((op, a, b, c))
+    check_arith(ctx, st, orc, cases)
+
+    # general_basis_change with mixed dtypes
+    from openfermion.ops.representations.polynomial_tensor import general_basis_change
+    items = []
+    reqs = []
+    KEYS = [(0,), (1,), (1, 0), (0, 1), (1, 1), (0, 0), (1, 0, 1), (1, 1, 0, 0), (0, 1, 0, 1)]
+    for i in range(N // 2):
+        n = rng.choice([1, 2, 2, 3])
+        key = rng.choice(KEYS)
+        T = typed_array(rng, n, len(key), rng.choice(DTYPES), rng.choice([0.0, 0.4]))
+        rk = rng.random()
+        if rk < 0.4:
+            R = signed_perm(rng, n, cplx=False).real.astype(rng.choice([numpy.int32, numpy.int64, numpy.float32, numpy.float64]))
+        elif rk < 0.7:
+            R = signed_perm(rng, n, cplx=True).astype(rng.choice([numpy.complex64, numpy.complex128]))
+        else:
+            R = typed_array(rng, n, 2, rng.choice(DTYPES), 0.2)
+        if rng.random() < 0.3:
+            R = numpy.asfortranarray(R)
+        items.append((n, key, T, R))
+        reqs.append({'op': 'c08.basis_change', 't': enc_tensor(T), 'key': list(key), 'R': enc_mat(R)})
+    ans = ctx.driver.run(reqs)
+    for (n, key, T, R), m in zip(items, ans):
+        case = {'f': 'general_basis_change', 'tensor': enc_tensor(T), 'tensor_dtype': str(T.dtype), 'key': list(key),
+                'R': enc_mat(R), 'R_dtype': str(R.dtype)}
+        st.case(case)
+        st.count('gbc:%s/%s' % (T.dtype, R.dtype))
+        T0, R0 = T.copy(), R.copy()
+        try:
+            T2 = general_basis_change(T, R, key)
+        except Exception as e:
+            st.violate('general_basis_change raised %s: %s' % (errname(e), e), case, {})
+            continue
+        if not numpy.array_equal(T, T0) or not numpy.array_equal(R, R0):
+            st.violate('general_basis_change modified its arguments', case, {})
+        if canon_tensor(enc_tensor(T2), len(key)) != canon_tensor(m, len(key)):
+            st.disagree('general_basis_change (dtypes)', case, enc_tensor(T2), m)
+
+    # conversions with argument types
+    HB = [(0.5, 1.0, 0.5), (2, 0.5, 1.0), (2.0, 0.5, 1.0), (8, 0.25, 2.0), (numpy.float64(8.0), 0.25, 2.0),
+          (numpy.float32(2.0), 0.5, 1.0)]
+    reqs = []
+    metas = []
+    for i in range(N // 2):
+        n = rng.choice([1, 2, 3])
+        kind = rng.choice(['io', 'qh', 'quad'])
+        if kind == 'io':
+            op = of.FermionOperator()
+            for _ in range(rng.randint(1, 4)):
+                op += of.FermionOperator(rand_fermion_term(rng, n, rng.choice([0, 2, 4])), typed_scalar(rng))
+            nq = rng.choice([None, n, numpy.int64(n + 1), n + 1])
+            metas.append((kind, op, nq, None))
+            reqs.append({'op': 'c08.get_io', 'A': enc_op('fermion', op.terms), 'n': None if nq is None else int(nq)})
+        elif kind == 'qh':
+            a = typed_values(rng, (n, n), numpy.complex128, 0.3)
+            herm = a + a.conj().T
+            op = of.FermionOperator()
+            for p in range(n):
+                for q in range(n):
+                    if herm[p, q] != 0:
+                        co = complex(herm[p, q])
+                        if co.imag == 0 and rng.random() < 0.5:
+                            co = rng.choice([float, numpy.float64])(co.real)
+                        op += of.FermionOperator(((p, 1), (q, 0)), co)
+            mu = rng.choice([0, 1, 0.5, -1.75, numpy.float64(0.25), 2.0])
+            nq = rng.choice([None, n, numpy.int64(n)])
+            metas.append((kind, op, nq, mu))
+            reqs.append({'op': 'c08.get_qh', 'A': enc_op('fermion', op.terms), 'mu': to_gq(mu),
+                         'n': None if nq is None else int(nq), 'ignore': False})
+        else:
+            hbar, r, r2 = rng.choice(HB)
+            op = of.BosonOperator()
+            for _ in range(rng.randint(1, 3)):
+                op += of.BosonOperator(tuple((rng.randrange(min(n, 2)), rng.randint(0, 1)) for _ in range(rng.randint(0, 3))),
+                                       typed_scalar(rng))
+            metas.append((kind, op, hbar, r))
+            reqs.append({'op': 'c08.get_quad', 'r': to_gq(r), 'B': enc_op('boson', op.terms)})
+    ans = ctx.driver.run(reqs)
+    for (kind, op, x, y), m in zip(metas, ans):
+        case = {'f': kind, 'operator': enc_op('boson' if kind == 'quad' else 'fermion', op.terms), 'arg': repr(x), 'arg2': repr(y)}
+        st.case(case)
+        st.count('conv:' + kind)
+        try:
+            if kind == 'io':
+                if of.count_qubits(op) == 0 and not x:
+                    continue
+                r = {'ok': enc_pt(of.get_interaction_operator(op, n_qubits=x))}
+            elif kind == 'qh':
+                if of.count_qubits(op) == 0 and not x:
+                    continue
+                r = {'ok': enc_pt(of.get_quadratic_hamiltonian(op, chemical_potential=y, n_qubits=x))}
+            else:
+                r = enc_op('quad', of.get_quad_operator(op, hbar=x).terms)
+        except (of.ops.representations.InteractionOperatorError, of.ops.representations.QuadraticHamiltonianError,
+                ValueError) as e:
+            r = {'error': errname(e)}
+        except Exception as e:
+            st.violate('%s raised %s: %s' % (kind, errname(e), e), case, {})
+            continue
+        if kind == 'quad':
+            if canon_op_json(r) != canon_op_json(m):
+                st.disagree('get_quad_operator (hbar type)', case, r, m)
+        else:
+            if ('ok' in r) != ('ok' in m) or ('error' in r and r['error'] != m['error']) or \
+                    ('ok' in r and canon_pt(r['ok']) != canon_pt(m['ok'])):
+                st.disagree('conversion (argument types)', case, r, m)
+            if 'ok' in r:
+                jA = case['operator']
+                orc.denote_pt(r['ok'], (lambda case, n, jA: (lambda den: orc.spec_eq(
+                    st, 'conversion result does not denote its argument', case, max(n, 1), leaf(den), leaf(jA))))(
+                        case, r['ok']['n'], jA))
+    orc.flush()
+    return st
+
+
+def rand_fop(of, rng, n, nterms, lengths, conserving=True, coeff=None):
+    op = of.FermionOperator()
+    for _ in range(nterms):
+        op += of.FermionOperator(rand_fermion_term(rng, n, rng.choice(lengths), conserving),
+                                 coeff(rng) if coeff else rand_c(rng, 0.0))
+    return op
+
+
+def stream_state(ctx):
+    of = ctx.of
+    from openfermion.ops.representations.polynomial_tensor import general_basis_change
+    st = Stream('state-and-aliasing',
+                '(S) every conversion / arithmetic function is called twice around an in-place modification of everything the '
+                'first call returned (arrays += 1, terms rescaled, constants overwritten): the second result must equal the '
+                'first, arguments must be unchanged and share no memory with results; objects edited in place (+=, *=, '
+                '__setitem__, constant / tensor setters, rotate_basis, add_chemical_potential, DiagonalCoulombHamiltonian *=) '
+                'must give get_fermion_operator / iteration / attributes / ground_energy / majorana_form equal to those of a '
+                'fresh object with the new content; distinct = distinct inputs')
+    orc = Oracle(ctx)
+    rng = rng_for(ctx.seed, 'c08-state')
+    N = budget(ctx.tier, 40, 400)
+    if ctx.drift:
+        N = max(N, 150)
+    normal_ordered = of.transforms.normal_ordered
+    for i in range(N):
+        n = rng.choice([1, 2, 3])
+        # --- conversions
+        A = rand_fop(of, rng, n, rng.randint(1, 4), [0, 2, 2, 4])
+        case = {'A': enc_op('fermion', A.terms)}
+        st.case(case)
+        if of.count_qubits(A) > 0:
+            twice(st, rng, 'get_interaction_operator', of.get_interaction_operator, [A], case)
+        twice(st, rng, 'normal_ordered', normal_ordered, [A], case)
+        twice(st, rng, 'get_majorana_operator', of.get_majorana_operator, [A], case)
+        a = typed_values(rng, (n, n), numpy.complex128, 0.3)
+        herm = a + a.conj().T
+        b = typed_values(rng, (n, n), numpy.complex128, 0.5)
+        anti = b - b.T
+        Q = of.FermionOperator((), 0.5)
+        for p in range(n):
+            for q in range(n):
+                if herm[p, q] != 0:
+                    Q += of.FermionOperator(((p, 1), (q, 0)), complex(herm[p, q]))
+                if anti[p, q] != 0 and p > q:
+                    Q += of.FermionOperator(((p, 1), (q, 1)), complex(anti[p, q]))
+                    Q += of.FermionOperator(((q, 0), (p, 0)), complex(anti[p, q]).conjugate())
+        caseq = {'A': enc_op('fermion', Q.terms)}
+        if of.count_qubits(Q) > 0:
+            twice(st, rng, 'get_quadratic_hamiltonian', lambda o: of.get_quadratic_hamiltonian(o, chemical_potential=0.5), [Q], caseq)
+        v = typed_values(rng, (n, n), numpy.float64, 0.3).real
+        V = v + v.T
+        Dop = of.FermionOperator((), 1.5)
+        for p in range(n):
+            for q in range(n):
+                if herm[p, q] != 0:
+                    Dop += of.FermionOperator(((p, 1), (q, 0)), complex(herm[p, q]))
+                if V[p, q] != 0:
+                    Dop += of.FermionOperator(((p, 1), (p, 0), (q, 1), (q, 0)), float(V[p, q]))
+        cased = {'A': enc_op('fermion', Dop.terms)}
+        dch = twice(st, rng, 'get_diagonal_coulomb_hamiltonian', of.get_diagonal_coulomb_hamiltonian, [Dop], cased) \
+            if of.count_qubits(Dop) > 0 else None
+        if dch is not None:
+            twice(st, rng, 'get_fermion_operator(DiagonalCoulombHamiltonian)', of.get_fermion_operator, [dch], cased)
+            twice(st, rng, 'DiagonalCoulombHamiltonian * 2.0', lambda h: h * 2.0, [dch], cased)
+        M = of.MajoranaOperator()
+        for _ in range(rng.randint(1, 3)):
+            M += of.MajoranaOperator(tuple(rng.randrange(2 * n) for _ in range(rng.randint(0, 4))), rand_c(rng, 0.0))
+        twice(st, rng, 'get_fermion_operator(MajoranaOperator)', of.get_fermion_operator, [M],
+              {'M': enc_op('majorana', M.terms)})
+        B = of.BosonOperator()
+        for _ in range(rng.randint(1, 3)):
+            B += of.BosonOperator(tuple((rng.randrange(min(n, 2)), rng.randint(0, 1)) for _ in range(rng.randint(0, 3))),
+                                  rand_c(rng, 0.0))
+        qd = twice(st, rng, 'get_quad_operator', lambda o: of.get_quad_operator(o, hbar=2.0), [B], {'B': enc_op('boson', B.terms)})
+        if qd is not None:
+            twice(st, rng, 'get_boson_operator', lambda o: of.get_boson_operator(o, hbar=2.0), [qd], {'Q': enc_op('quad', qd.terms)})
+        # --- tensors
+        pool = KEYS_ALL if n <= 2 else [k for k in KEYS_ALL if len(k) <= 2]
+        ta = rand_pt(of, rng, n, rand_keys(rng, pool))
+        tb = rand_pt(of, rng, n, rand_keys(rng, pool))
+        caset = {'a': enc_pt(ta), 'b': enc_pt(tb)}
+        twice(st, rng, 'PolynomialTensor + PolynomialTensor', lambda x, y: x + y, [ta, tb], caset)
+        twice(st, rng, 'PolynomialTensor - PolynomialTensor', lambda x, y: x - y, [ta, tb], caset)
+        twice(st, rng, '-PolynomialTensor', lambda x: -x, [ta], caset)
+        twice(st, rng, 'PolynomialTensor * 0.5', lambda x: x * 0.5, [ta], caset)
+        twice(st, rng, '2 * PolynomialTensor', lambda x: 2 * x, [ta], caset)
+        twice(st, rng, 'PolynomialTensor / 2', lambda x: x / 2, [ta], caset)
+        twice(st, rng, 'PolynomialTensor * PolynomialTensor', lambda x, y: x * y, [ta, tb], caset)
+        twice(st, rng, 'get_fermion_operator(PolynomialTensor)', of.get_fermion_operator, [ta], caset)
+        twice(st, rng, 'get_majorana_operator(PolynomialTensor)', of.get_majorana_operator, [ta], caset)
+        key = rng.choice([(1, 0), (0, 1), (1, 1), (1, 0, 1)] + ([(1, 1, 0, 0)] if n <= 2 else []))
+        T = rand_array(rng, n, len(key), 0.2)
+        R = signed_perm(rng, n)
+        twice(st, rng, 'general_basis_change', lambda t, r: general_basis_change(t, r, key), [T, R],
+              {'tensor': enc_tensor(T), 'R': enc_mat(R), 'key': list(key)})
+        # --- objects edited in place must be re-read
+        try:
+            obj = copy.deepcopy(ta)
+            edits = []
+            for _ in range(rng.randint(1, 4)):
+                e = rng.choice(['iadd', 'imul', 'setitem', 'constant', 'rotate', 'isub', 'idiv'])
+                edits.append(e)
+                if e == 'iadd':
+                    obj += tb
+                elif e == 'isub':
+                    obj -= copy.deepcopy(obj) * 0.5
+                elif e == 'imul':
+                    obj *= rng.choice([2.0, -0.5, 1j])
+                elif e == 'idiv':
+                    obj /= rng.choice([2.0, -0.5])
+                elif e == 'constant':
+                    obj.constant = rand_c(rng, 0.0)
+                elif e == 'rotate':
+                    obj.rotate_basis(signed_perm(rng, n))
+                else:
+                    ks = [k for k in obj.n_body_tensors if k != ()]
+                    k = rng.choice(ks)
+                    obj[tuple((rng.randrange(n), x) for x in k)] = rand_c(rng, 0.0)
+            fresh = of.PolynomialTensor({k: copy.deepcopy(v) for k, v in obj.n_body_tensors.items()})
+            casee = dict(caset, edits=edits)
+            st.count('edited-object')
+            if snap_any(of.get_fermion_operator(obj)) != snap_any(of.get_fermion_operator(fresh)) or \
+                    sorted(map(str, obj)) != sorted(map(str, fresh)) or not (obj == fresh) or (obj != fresh):
+                st.violate('an edited PolynomialTensor is not read like a fresh object with the same arrays', casee, {})
+            jo = enc_pt(obj)
+            orc.denote_pt(jo, (lambda casee, n, jf: (lambda den: orc.spec_eq(
+                st, 'get_fermion_operator of an edited PolynomialTensor does not denote its arrays', casee, n, leaf(jf),
+                leaf(den))))(casee, n, enc_op('fermion', of.get_fermion_operator(obj).terms)))
+        except Exception as e:
+            st.violate('editing a PolynomialTensor raised %s: %s' % (errname(e), e), caset, {})
+        # InteractionOperator setters
+        try:
+            io = of.InteractionOperator(rand_c(rng, 0.0), rand_array(rng, n, 2), rand_array(rng, n, 4) if n <= 2 else
+                                        numpy.zeros((n,) * 4, complex))
+            io.one_body_tensor = rand_array(rng, n, 2)
+            if n <= 2:
+                io.two_body_tensor = rand_array(rng, n, 4)
+            io.constant = rand_c(rng, 0.0)
+            io *= 2.0
+            fresh = of.InteractionOperator(io.constant, io.one_body_tensor.copy(), io.two_body_tensor.copy())
+            if snap_any(of.get_fermion_operator(io)) != snap_any(of.get_fermion_operator(fresh)) or \
+                    snap_any(-io) != snap_any(-fresh):
+                st.violate('an edited InteractionOperator is not read like a fresh one', {'tensor': enc_pt(io)}, {})
+        except Exception as e:
+            st.violate('editing an InteractionOperator raised %s: %s' % (errname(e), e), caset, {})
+        # QuadraticHamiltonian.add_chemical_potential
+        try:
+            mu0 = rng.choice([0.0, 0.5, -1.75, 2.0])
+            x = rng.choice([0.25, -1.5, 3.0, 1])
+            withD = rng.random() < 0.5
+            args = (herm.copy(), anti.copy(), 0.75, mu0) if withD else (herm.copy(), None, 0.75, mu0)
+            qh = of.QuadraticHamiltonian(*args)
+            e0 = qh.ground_energy()
+            qh.add_chemical_potential(x)
+            fresh = of.QuadraticHamiltonian(herm.copy(), anti.copy() if withD else None, 0.75, mu0 + x)
+            caseh = {'f': 'add_chemical_potential', 'hermitian_part': enc_tensor(herm),
+                     'antisymmetric_part': enc_tensor(anti) if withD else None, 'mu0': mu0, 'x': x}
+            st.count('add_chemical_potential')
+            if canon_pt(enc_pt(qh)) != canon_pt(enc_pt(fresh)) or qh.chemical_potential != fresh.chemical_potential or \
+                    canon_tensor(enc_tensor(qh.hermitian_part), 2) != canon_tensor(enc_tensor(herm), 2) or \
+                    snap_any(of.get_fermion_operator(qh)) != snap_any(of.get_fermion_operator(fresh)):
+                st.violate('add_chemical_potential: tensors / chemical_potential / hermitian_part / get_fermion_operator differ '
+                           'from a fresh QuadraticHamiltonian with the new chemical potential', caseh, {})
+            st.float_comparisons += 2
+            ma, ca = qh.majorana_form()
+            mb, cb = fresh.majorana_form()
+            if abs(qh.ground_energy() - fresh.ground_energy()) > 1e-9 or numpy.max(numpy.abs(ma - mb)) > 1e-9 or abs(ca - cb) > 1e-9:
+                st.violate('add_chemical_potential: ground_energy / majorana_form are not those of the new content', caseh,
+                           {'before': e0, 'after': qh.ground_energy(), 'fresh': fresh.ground_energy()})
+        except Exception as e:
+            st.violate('add_chemical_potential raised %s: %s' % (errname(e), e), {'hermitian_part': enc_tensor(herm)}, {})
+    orc.flush()
+    return st
+
+
+def small_c(rng):
+    """dyadic coefficient of magnitude 1e-7 .. 1e-4 (a decade above the library's 1e-8 pruning threshold)"""
+    e = rng.choice([14, 17, 20, 23])
+    v = rng.choice([1, -1, 3, -3]) * 2.0 ** (-e)
+    return complex(v, rng.choice([0, 0, 1, -1]) * 2.0 ** (-e))
+
+
+def mixed_c(rng):
+    return small_c(rng) if rng.random() < 0.5 else rand_c(rng, 0.0)
+
+
+def relabel_fop(of, op, f):
+    out = of.FermionOperator()
+    for t, c in op.terms.items():
+        out += of.FermionOperator(tuple((f(i), a) for i, a in t), c)
+    return out
+
+
+def stream_bands(ctx):
+    of = ctx.of
+    st = Stream('bands-and-sizes',
+                '(B) conversions with dyadic coefficients of magnitude 1e-7..1e-4 next to O(1) ones (Hermiticity defects and '
+                'pairing terms of that size must be rejected / kept), tensors and rotations on 9 and 17 modes, operators on mode '
+                'indices >= 257 (Majorana <-> fermion, get_quadratic_hamiltonian on 259+ modes, __getitem__ / __iter__), '
+                'relabelling i -> i + 257 commutes with the Majorana conversions; exact comparison with the Model, Spec oracle '
+                'where the register has <= 4 modes; distinct = distinct inputs')
+    orc = Oracle(ctx)
+    rng = rng_for(ctx.seed, 'c08-bands')
+    N = budget(ctx.tier, 60, 600)
+    if ctx.drift:
+        N = max(N, 250)
+    # --- small coefficients through the three conversions
+    reqs, metas = [], []
+    for i in range(N):
+        n = rng.choice([2, 3, 4])
+        kind = rng.choice(['io', 'qh', 'qh', 'dch'])
+        if kind == 'io':
+            op = build_op(of, rng, [(rand_fermion_term(rng, n, rng.choice([0, 2, 4])), mixed_c(rng)) for _ in range(rng.randint(1, 5))])
+            reqs.append({'op': 'c08.get_io', 'A': enc_op('fermion', op.terms), 'n': None})
+            metas.append((kind, op, None))
+        elif kind == 'qh':
+            pieces = []
+            for p in range(n):
+                for q in range(p, n):
+                    if rng.random() < 0.5:
+                        c = mixed_c(rng)
+                        if p == q:
+                            c = complex(c.real, 0)
+                        pieces.append((((p, 1), (q, 0)), c))
+                        if p != q:
+                            pieces.append((((q, 1), (p, 0)), c.conjugate()))
+            for p in range(n):
+                for q in range(p):
+                    if rng.random() < 0.3:
+                        c = mixed_c(rng)
+                        pieces.append((((p, 1), (q, 1)), c))
+                        pieces.append((((q, 0), (p, 0)), c.conjugate()))
+            bad = None
+            r = rng.random()
+            if r < 0.25 and n >= 2:
+                bad = 'tiny-nonhermitian'
+                p, q = rng.sample(range(n), 2)
+                pieces.append((((p, 1), (q, 0)), small_c(rng)))
+            elif r < 0.4 and n >= 2:
+                bad = 'tiny-unmatched-pairing'
+                p, q = sorted(rng.sample(range(n), 2), reverse=True)
+                pieces.append((((p, 1), (q, 1)), small_c(rng)))
+                pieces.append((((q, 0), (p, 0)), small_c(rng) * 3))
+            op = build_op(of, rng, pieces)
+            mu = rng.choice([0.0, 2.0 ** -17, 0.5])
+            reqs.append({'op': 'c08.get_qh', 'A': enc_op('fermion', op.terms), 'mu': to_gq(mu), 'n': None, 'ignore': False})
+            metas.append((kind, op, (mu, bad)))
+        else:
+            pieces = [((), 0.5)]
+            for p in range(n):
+                for q in range(p, n):
+                    if rng.random() < 0.5:
+                        c = mixed_c(rng)
+                        if p == q:
+                            c = complex(c.real, 0)
+                        pieces.append((((p, 1), (q, 0)), c))
+                        if p != q:
+                            pieces.append((((q, 1), (p, 0)), c.conjugate()))
+                    if p != q and rng.random() < 0.5:
+                        pieces.append((((p, 1), (p, 0), (q, 1), (q, 0)), mixed_c(rng).real))
+            bad = None
+            if rng.random() < 0.3 and n >= 2:
+                bad = 'tiny-imaginary'
+                p, q = rng.sample(range(n), 2)
+                pieces.append((((p, 1), (p, 0), (q, 1), (q, 0)), complex(0, 2.0 ** -rng.choice([14, 17, 20]))))
+            op = build_op(of, rng, pieces)
+            reqs.append({'op': 'c08.get_dch', 'A': enc_op('fermion', op.terms), 'n': None, 'ignore': False})
+            metas.append((kind, op, bad))
+    ans = ctx.driver.run(reqs)
+    for (kind, op, extra), m in zip(metas, ans):
+        jA = enc_op('fermion', op.terms)
+        case = {'f': kind, 'A': jA, 'extra': repr(extra)}
+        st.case(case)
+        if of.count_qubits(op) == 0:
+            continue
+        try:
+            if kind == 'io':
+                r = {'ok': enc_pt(of.get_interaction_operator(op))}
+            elif kind == 'qh':
+                qh = of.get_quadratic_hamiltonian(op, chemical_potential=extra[0])
+                r = {'ok': enc_pt(qh)}
+            else:
+                r = {'ok': enc_dch(of.get_diagonal_coulomb_hamiltonian(op))}
+        except (of.ops.representations.InteractionOperatorError, of.ops.representations.QuadraticHamiltonianError,
+                ValueError) as e:
+            r = {'error': errname(e)}
+        except Exception as e:
+            st.violate('%s raised %s: %s' % (kind, errname(e), e), case, {})
+            continue
+        st.count('small:%s:%s' % (kind, 'ok' if 'ok' in r else r['error']))
+        can = canon_dch if kind == 'dch' else canon_pt
+        if ('ok' in r) != ('ok' in m) or ('error' in r and r['error'] != m['error']) or ('ok' in r and can(r['ok']) != can(m['ok'])):
+            st.disagree('conversion with small coefficients', case, r, m)
+        bad = extra[1] if kind == 'qh' else extra if kind == 'dch' else None
+        if 'ok' in r and bad is not None and kind == 'qh':
+            # an accepted operator must be Hermitian to within the library tolerance
+            h = qh.hermitian_part
+            jno = enc_op('fermion', of.transforms.normal_ordered(op).terms)
+            herm_op = of.transforms.normal_ordered(of.hermitian_conjugated(op) - op)
+            worst = max([abs(c) for c in herm_op.terms.values()] + [0.0])
+            if worst > 1e-7:
+                st.violate('get_quadratic_hamiltonian accepts an operator that differs from its Hermitian conjugate by %g' % worst,
+                           case, r)
+        if 'ok' in r and bad == 'tiny-imaginary':
+            st.violate('get_diagonal_coulomb_hamiltonian accepts an imaginary two-body coefficient above the tolerance', case, r)
+        if 'error' in r and bad is None and kind != 'io':
+            st.violate('%s rejects an admissible operator with small coefficients' % kind, case, r)
+        if 'ok' in r:
+            n = r['ok']['n']
+            if kind == 'dch':
+                jh = r['ok']
+                orc.ask({'op': 'c08.spec_dch', 'n': n, 'T': jh['one'], 'V': jh['two'], 'c': jh['c']},
+                        (lambda case, n, jA: (lambda den: orc.spec_eq(st, 'conversion (small coefficients) does not denote A', case,
+                                                                      n, leaf(den), leaf(jA))))(case, n, jA))
+            else:
+                orc.denote_pt(r['ok'], (lambda case, n, jA: (lambda den: orc.spec_eq(
+                    st, 'conversion (small coefficients) does not denote A', case, n, leaf(den), leaf(jA))))(case, n, jA))
+            if kind == 'qh' and any(len(t) == 2 and t[0][1] == t[1][1] for t, _ in jA):
+                pairing = max([abs(gq_to_c(c)) for t, c in enc_op('fermion', of.transforms.normal_ordered(op).terms)
+                               if len(t) == 2 and t[0][1] == 1 and t[1][1] == 1] + [0.0])
+                if pairing > 1e-7 and (1, 1) not in qh.n_body_tensors:
+                    st.violate('get_quadratic_hamiltonian drops a pairing term above the tolerance', case, r)
+    # --- sizes 9 and 17, indices >= 257
+    from openfermion.ops.representations.polynomial_tensor import general_basis_change
+    reqs, metas = [], []
+    for n in ([9, 17] if ctx.tier == 'quick' and not ctx.drift else [9, 12, 17, 20]):
+        for rep in range(2):
+            keys = [(1, 0), rng.choice([(0, 1), (1, 1), (0, 0)]), ()]
+            a = of.PolynomialTensor({k: (rand_c(rng, 0.0) if k == () else rand_array(rng, n, 2, 0.8)) for k in keys})
+            b = of.PolynomialTensor({k: (rand_c(rng, 0.0) if k == () else rand_array(rng, n, 2, 0.8)) for k in keys[:2]})
+            for opn in ('add', 'sub'):
+                reqs.append({'op': 'c08.arith', 'f': MODEL_F[opn], 'a': enc_pt(a), 'b': enc_pt(b)})
+                metas.append(('arith', opn, a, b))
+            R = signed_perm(rng, n)
+            T = rand_array(rng, n, 2, 0.7)
+            key = rng.choice([(1, 0), (0, 1), (1, 1)])
+            reqs.append({'op': 'c08.basis_change', 't': enc_tensor(T), 'key': list(key), 'R': enc_mat(R)})
+            metas.append(('gbc', key, T, R))
+            reqs.append({'op': 'c08.to_fermion', 'a': enc_pt(a)})
+            metas.append(('tofermion', None, a, None))
+    ans = ctx.driver.run(reqs)
+    for (kind, x, a, b), m in zip(metas, ans):
+        case = {'f': kind, 'n': int(a.shape[0]) if isinstance(a, numpy.ndarray) else a.n_qubits}
+        st.case(dict(case, digest=show(snap_any(a), 200)))
+        st.count('size:%s:n=%d' % (kind, case['n']))
+        try:
+            if kind == 'arith':
+                r = enc_pt(a + b if x == 'add' else a - b)
+                if canon_pt(r) != canon_pt(m['ok']):
+                    st.disagree('PolynomialTensor %s on %d modes' % (x, case['n']), case, show(r, 500), show(m, 500))
+            elif kind == 'gbc':
+                r = enc_tensor(general_basis_change(a, b, x))
+                if canon_tensor(r, 2) != canon_tensor(m, 2):
+                    st.disagree('general_basis_change on %d modes' % case['n'], case, show(r, 500), show(m, 500))
+            else:
+                r = enc_op('fermion', of.get_fermion_operator(a).terms)
+                if canon_op_json(r) != canon_op_json(m):
+                    st.disagree('get_fermion_operator on %d modes' % case['n'], case, show(r, 500), show(m, 500))
+        except Exception as e:
+            st.violate('%s on %d modes raised %s: %s' % (kind, case['n'], errname(e), e), case, {})
+    # large mode indices
+    reqs, metas = [], []
+    for i in range(N // 2):
+        OFF = rng.choice([257, 258, 300, 1000, 70000])
+        n = rng.choice([1, 2, 3])
+        A = rand_fop(of, rng, n, rng.randint(1, 3), [0, 1, 2, 3, 4], conserving=False)
+        big = relabel_fop(of, A, lambda j: j + OFF)
+        reqs.append({'op': 'c08.fermion_to_maj', 'A': enc_op('fermion', big.terms)})
+        metas.append(('f2m', A, big, OFF))
+        M = of.MajoranaOperator()
+        for _ in range(rng.randint(1, 3)):
+            M += of.MajoranaOperator(tuple(rng.randrange(2 * n) for _ in range(rng.randint(0, 4))), rand_c(rng, 0.0))
+        bigM = of.MajoranaOperator()
+        for t, c in M.terms.items():
+            bigM += of.MajoranaOperator(tuple(j + 2 * OFF for j in t), c)
+        reqs.append({'op': 'c08.maj_to_fermion', 'M': enc_op('majorana', bigM.terms)})
+        metas.append(('m2f', M, bigM, OFF))
+    ans = ctx.driver.run(reqs)
+    for (kind, small, big, OFF), m in zip(metas, ans):
+        case = {'f': kind, 'offset': OFF, 'operator': enc_op('fermion' if kind == 'f2m' else 'majorana', big.terms)}
+        st.case(case)
+        st.count('bigindex:' + kind)
+        try:
+            if kind == 'f2m':
+                rb = of.get_majorana_operator(big)
+                rs = of.get_majorana_operator(small)
+                jb = enc_op('majorana', rb.terms)
+                shifted = canon_op_json([[[[j + 2 * OFF, 0] for j, _ in t], c] for t, c in enc_op('majorana', rs.terms)])
+            else:
+                rb = of.get_fermion_operator(big)
+                rs = of.get_fermion_operator(small)
+                jb = enc_op('fermion', rb.terms)
+                shifted = canon_op_json([[[[j + OFF, a] for j, a in t], c] for t, c in enc_op('fermion', rs.terms)])
+            if canon_op_json(jb) != canon_op_json(m):
+                st.disagree('Majorana conversion on mode indices >= 257', case, jb, m)
+            if canon_op_json(jb) != shifted:
+                st.violate('relabelling the modes by +%d does not commute with the Majorana conversion' % OFF, case,
+                           {'big': jb})
+        except Exception as e:
+            st.violate('%s raised %s: %s' % (kind, errname(e), e), case, {})
+    # quadratic Hamiltonian and tensor access on > 257 modes
+    n = rng.choice([259, 261])
+    modes = [0, 1, 256, 257, n - 1]
+    pieces = [((), 0.25)]
+    for _ in range(4):
+        p, q = rng.choice(modes), rng.choice(modes)
+        c = rand_c(rng, 0.0)
+        if p == q:
+            c = complex(c.real, 0)
+        pieces.append((((p, 1), (q, 0)), c))
+        if p != q:
+            pieces.append((((q, 1), (p, 0)), c.conjugate()))
+    p, q = n - 1, 257
+    c = rand_c(rng, 0.0)
+    pieces += [(((p, 1), (q, 1)), c), (((q, 0), (p, 0)), c.conjugate())]
+    op = of.FermionOperator()
+    for t, c in pieces:
+        op += of.FermionOperator(t, c)
+    case = {'f': 'get_quadratic_hamiltonian', 'n_modes': n, 'A': enc_op('fermion', op.terms)}
+    st.case(case)
+    try:
+        qh = of.get_quadratic_hamiltonian(op)
+        back = of.get_fermion_operator(qh)
+        no = of.transforms.normal_ordered(op)
+        st.count('bigindex:qh')
+        if canon_op_json(enc_op('fermion', of.transforms.normal_ordered(back).terms)) != canon_op_json(enc_op('fermion', no.terms)):
+            st.violate('get_fermion_operator(get_quadratic_hamiltonian(A)) != normal_ordered(A) on %d modes' % n, case, {})
+        m = ctx.driver.one({'op': 'c08.get_qh', 'A': case['A'], 'mu': to_gq(0), 'n': None, 'ignore': False})
+        if 'ok' not in m or canon_pt(enc_pt(qh)) != canon_pt(m['ok']):
+            st.disagree('get_quadratic_hamiltonian on %d modes' % n, case, 'tensors differ', 'tensors differ')
+        for t, c in no.terms.items():
+            if t and from_gq(to_gq(qh[t])) != from_gq(to_gq(c)) and len(t) == 2 and t[0][1] == 1 and t[1][1] == 0:
+                st.violate('__getitem__ on indices >= 257 does not return the coefficient', case, {'term': t})
+        seen = {t for t in qh}
+        want = {t for t in no.terms if t} | {()}
+        # the (1,1)/(0,0) tensors are antisymmetrised: both orders of each pairing term appear
+        if not want <= seen:
+            st.violate('__iter__ on %d modes misses a term' % n, case, {'missing': sorted(want - seen)})
+    except Exception as e:
+        st.violate('get_quadratic_hamiltonian on %d modes raised %s: %s' % (n, errname(e), e), case, {})
+    orc.flush()
+    return st
+
+
+def gq_to_c(j):
+    a, b = from_gq(j)
+    return complex(float(a), float(b))
